@@ -1,0 +1,76 @@
+//go:build verif
+
+package extension
+
+// Machine-checked contracts for the gocv verifier (/verif/DESIGN.md). Comments only.
+
+// ---------------------------------------------------------------- C15: automatic persisted queries
+// hashOf(s) stands for hex(sha256(s)) (uninterpreted: SHA-256 itself is trusted). Cache invariant Inv:
+// every entry (k, v) of the APQ cache satisfies hashOf(v) == k. Get may only return an entry (or !ok) -
+// an evicting cache may forget, never invent; Add is only permitted for pairs satisfying Inv. Together with
+// "Add is reached only after the hash comparison" Inv is inductive over every request history.
+//@ spec hashOf(string) string
+//@ trusted computeQueryHash(query) (h)
+//@   ensures h == hashOf(query)
+//@   nopanic
+//@   pure
+//@ trusted (github.com/99designs/gqlgen/graphql.Cache[string]).Get(ctx, key) (value, ok)
+//@   ensures ok ==> hashOf(value) == key
+//@   pure
+//@ trusted (github.com/99designs/gqlgen/graphql.Cache[string]).Add(ctx, key, value)
+//@   requires hashOf(value) == key
+//@   pure
+//@ trusted github.com/go-viper/mapstructure/v2.Decode(input, output) (err)
+//@   modifies nothing
+//@ trusted github.com/vektah/gqlparser/v2/gqlerror.Errorf(message, args) (err)
+//@   ensures err != nil
+//@   nopanic
+//@   pure
+//@ trusted github.com/99designs/gqlgen/graphql/errcode.Set(err, value)
+//@   modifies Error.Extensions maps
+//@ trusted github.com/99designs/gqlgen/graphql.GetOperationContext(ctx) (oc)
+//@   pure
+//@ trusted (*github.com/99designs/gqlgen/graphql.Stats).SetExtension(name, data)
+//@   modifies Stats.* maps
+
+//@ func (AutomaticPersistedQuery).MutateOperationParameters [C15,C07]
+//@   requires rawParams != nil
+//@   ghost looked = false
+//@   ghost hit = false
+//@   ghost gotKey = ""
+//@   ghost gotVal = ""
+//@   at `a.Cache.Get(ctx, extension.Sha256)` requires rawParams.Query == "" && old(rawParams.Query) == ""
+//@   at `a.Cache.Get(ctx, extension.Sha256)` ghost looked = true
+//@   at `a.Cache.Get(ctx, extension.Sha256)` ghost hit = callres1
+//@   at `a.Cache.Get(ctx, extension.Sha256)` ghost gotKey = arg1
+//@   at `a.Cache.Get(ctx, extension.Sha256)` ghost gotVal = callres0
+//@   at `a.Cache.Add(ctx, extension.Sha256, rawParams.Query)` requires arg2 == old(rawParams.Query) && arg2 != "" && hashOf(arg2) == arg1
+//@   ensures res0 != nil ==> calls(Add) == 0
+//@   ensures calls(Add) <= 1
+//@   ensures old(rawParams.Query) != "" ==> rawParams.Query == old(rawParams.Query) && !looked
+//@   ensures old(rawParams.Query) == "" ==> calls(Add) == 0
+//@   ensures looked && !hit ==> res0 != nil
+//@   ensures looked && res0 == nil ==> hit && rawParams.Query == gotVal && hashOf(rawParams.Query) == gotKey
+//@   ensures calls(Decode) == 0 ==> res0 == nil && calls(Add) == 0 && !looked && rawParams.Query == old(rawParams.Query)
+
+// ---------------------------------------------------------------- C14: the limit is a gate
+//@ trusted github.com/99designs/gqlgen/complexity.Calculate(ctx, es, op, vars) (c)
+//@   requires op != nil && es != nil
+//@   ensures c >= 0
+//@ trusted field:github.com/99designs/gqlgen/graphql/handler/extension.ComplexityLimit.Func(ctx, opCtx) (limit)
+//@ trusted (github.com/vektah/gqlparser/v2/ast.OperationList).ForName(name) (op)
+//@   ensures op == forName(recv, name)
+//@   nopanic
+//@   pure
+// Over-limit operations are rejected (the transports then dispatch nothing: C03), operations at or below the
+// limit are not rejected for complexity; the statistics record the values that were compared.
+//@ func (ComplexityLimit).MutateOperationContext [C14]
+//@   requires opCtx != nil && opCtx.Doc != nil && c.es != nil && forName(opCtx.Doc.Operations, opCtx.OperationName) != nil
+//@   ghost cx = 0
+//@   ghost lim = 0
+//@   at `complexity.Calculate(ctx, c.es, op, opCtx.Variables)` requires arg2 == forName(opCtx.Doc.Operations, opCtx.OperationName)
+//@   at `complexity.Calculate(ctx, c.es, op, opCtx.Variables)` ghost cx = callres0
+//@   at `c.Func(ctx, opCtx)` ghost lim = callres0
+//@   ensures cx > lim ==> res0 != nil
+//@   ensures cx <= lim ==> res0 == nil
+//@   ensures calls(Calculate) == 1 && calls(SetExtension) == 1
